@@ -37,6 +37,23 @@ pub mod signum;
 mod wnaf;
 pub use self::wnaf::Wnaf;
 
+/// Verification hooks (compiled only with `--cfg pairing_plus_verif`): thin public wrappers around
+/// crate-private routines so that an external harness can drive them directly.
+#[cfg(pairing_plus_verif)]
+pub mod verif_hooks {
+    use super::{CurveProjective, PrimeFieldRepr};
+
+    pub fn wnaf_table<G: CurveProjective>(table: &mut Vec<G>, base: G, window: usize) {
+        ::wnaf::wnaf_table(table, base, window)
+    }
+    pub fn wnaf_form<S: PrimeFieldRepr>(wnaf: &mut Vec<i64>, c: S, window: usize) {
+        ::wnaf::wnaf_form(wnaf, c, window)
+    }
+    pub fn wnaf_exp<G: CurveProjective>(table: &[G], wnaf: &[i64]) -> G {
+        ::wnaf::wnaf_exp(table, wnaf)
+    }
+}
+
 use ff::{Field, PrimeField, PrimeFieldDecodingError, PrimeFieldRepr, ScalarEngine, SqrtField};
 use std::error::Error;
 use std::fmt;
